@@ -371,6 +371,12 @@ class Interp(ExprMixin):
                 return self.call_internal(f, args, kwargs, st, node, self_val=recv)
             if name not in cls.attr_names():
                 self.note(st, 'B1', node, what=f'{cls.key} has no attribute {name!r}')
+        ra = recv.single_atom() if isinstance(recv, Poly) else None
+        if ra is not None and ra[0] == 'app' and ra[1] == 'kwargs' and name in ('pop', 'get') and args:
+            for pr in ra[2]:
+                if isinstance(pr, Tup) and pr.items[0] == args[0]:
+                    return pr.items[1]
+            return args[1] if len(args) > 1 else NONE
         # bound method stored in the heap / attribute value
         if name in ARRAY_METHODS_MUTATE:
             self.log_write(st, 'method:' + name, recv, node, args=args)
@@ -566,7 +572,7 @@ class Interp(ExprMixin):
         self.log_write(st, 'attrstore', base, s, attr=name, value=v, setter=setter.key if setter else None)
         if setter is not None:
             bound = {setter.params()[0][0]: base, setter.params()[1][0]: v}
-            self.log_call(st, setter, bound, s, kind='setter')
+            self.log_call(st, setter, bound, s, via='setter')
             if self.should_inline(setter):
                 self.inline(setter, bound, st, s)
                 return
